@@ -4,7 +4,7 @@
     safety of the object code (ASan / TSan runs of the same harness) and the sorting result itself (checked on every run
     by the harness: sorted, permutation of the string objects, exact LCPs). *)
 From Coq Require Import List Arith Sorting.Sorted Sorting.Permutation.
-From TLXV Require Import Common.Order C04.Jobs C04.JobsProofs C04.SampleSort C04.PWork C04.Recursion.
+From TLXV Require Import Common.Order C04.Jobs C04.JobsProofs C04.SampleSort C04.PWork C04.Recursion C04.RecursionLcp.
 Import ListNotations.
 
 (** For every event sequence the code can produce -- any number of worker threads, any interleaving, any recursion
@@ -85,3 +85,23 @@ Theorem C04_sample_sort_recursion_correct :
   Sorted (sorted_rel lex_ltb) out /\ Permutation l out.
 Proof. exact ps5_recursion_correct. Qed.
 Print Assumptions C04_sample_sort_recursion_correct.
+
+(** The LCP variant stores exactly the neighbouring longest-common-prefix lengths, for the WHOLE recursion.
+    [SortsL w depth l out lcp] (C04/RecursionLcp.v) is [Sorts] with the LCP array every execution leaves behind:
+    a small sorter returns a sorted permutation of its bucket together with the exact neighbouring LCPs (full
+    strings, entry 0 unspecified); an equal bucket whose splitter key contains the terminator is left as it stands
+    and filled with depth + lcpKeyDepth(splitter) = depth + w - ctz(splitter)/8; and after the recursion
+    ps5_sample_sort_lcp() overwrites the first entry of every non-empty bucket that has a non-empty predecessor by
+    depth + clz(prevkey xor thiskey)/8, the keys at [depth] of the last string of the preceding non-empty bucket and
+    of the first string of this one (the splitter for an equal bucket).  Whatever the splitters, thresholds and
+    small sorters: the output is a sorted permutation and lcp[i] = lcp(out[i-1], out[i]) for every i >= 1
+    ([neighbour_lcps]: length lcp = length out /\ forall i, 1 <= i < length out ->
+     nth i lcp 0 = lcp_str (nth (i-1) out []) (nth i out [])). *)
+Theorem C04_sample_sort_recursion_lcp_correct :
+  forall (w depth : nat) (common : str) (l out : list str) (lcp : list nat), 1 <= w ->
+  Forall (in_scope depth common) l -> SortsL w depth l out lcp ->
+  Sorted (sorted_rel lex_ltb) out /\ Permutation l out /\
+  (length lcp = length out /\
+   forall i, 1 <= i -> i < length out -> nth i lcp 0 = lcp_str (nth (i - 1) out []) (nth i out [])).
+Proof. exact ps5_recursion_lcp_correct. Qed.
+Print Assumptions C04_sample_sort_recursion_lcp_correct.
